@@ -33,7 +33,9 @@ type FRun struct {
 type FFragment struct {
 	Runs   []FRun // data order; each run becomes one trun in the traf of its track
 	LeadIn int    // unused bytes at the start of the mdat payload
-	Emsg   bool   // an emsg box before the moof
+	// MdatLarge: the mdat box is written with the 64-bit (largesize) header form, 16 bytes instead of 8
+	MdatLarge bool
+	Emsg      bool // an emsg box before the moof
 	SeqNr  uint32
 }
 
@@ -184,6 +186,10 @@ func BuildFrag(spec *FSpec) *FFile {
 					dataPos += int(s.Size)
 				}
 			}
+			mdatHdr := 8
+			if fr.MdatLarge {
+				mdatHdr = 16
+			}
 			// moof is built twice: first to learn its size
 			moofAbs := len(ff.Init) + len(seg)
 			for _, ps := range ff.Segs {
@@ -239,7 +245,7 @@ func BuildFrag(spec *FSpec) *FFile {
 					baseAbs := uint64(0)
 					if spec.BaseOffset {
 						tfFlags = tfFlags&^0x020000 | 0x1
-						baseAbs = uint64(moofAbs + moofSize + 8 + truns[0].dataPos)
+						baseAbs = uint64(moofAbs + moofSize + mdatHdr + truns[0].dataPos)
 						tfBody = append(be64(baseAbs), tfBody...)
 					}
 					traf := [][]byte{tableref.FullBox("tfhd", 0, tfFlags, be32(t.ID), tfBody)}
@@ -264,7 +270,7 @@ func BuildFrag(spec *FSpec) *FFile {
 						if flagsInTrun {
 							fl |= 0x400
 						}
-						body := append(be32(uint32(len(ti.run.Samples))), be32(uint32(moofSize+8+ti.dataPos))...)
+						body := append(be32(uint32(len(ti.run.Samples))), be32(uint32(moofSize+mdatHdr+ti.dataPos))...)
 						if spec.BaseOffset {
 							if len(truns) == 1 {
 								fl &^= 0x1
@@ -292,7 +298,14 @@ func BuildFrag(spec *FSpec) *FFile {
 			moof := build(0)
 			moof = build(len(moof))
 			seg = append(seg, moof...)
-			seg = append(seg, tableref.Box("mdat", payload)...)
+			if fr.MdatLarge {
+				seg = append(seg, be32(1)...)
+				seg = append(seg, []byte("mdat")...)
+				seg = append(seg, be64(uint64(16+len(payload)))...)
+				seg = append(seg, payload...)
+			} else {
+				seg = append(seg, tableref.Box("mdat", payload)...)
+			}
 		}
 		ff.Segs = append(ff.Segs, seg)
 		ff.FragPos = append(ff.FragPos, pos)
